@@ -923,6 +923,49 @@ func (t *tester) ephemeralFabrications(cs consensus.State, orig types.Block, bs 
 		}
 		break // one position per block is enough
 	}
+	// the same for siafund parents: a siafund output created in the block, spent again under the ID of an element of
+	// another kind sitting at the same position of its diff list
+	sfes := au.SiafundElementDiffs()
+	for j, d := range sfes {
+		if !d.Created || d.Spent || d.SiafundElement.SiafundOutput.Value == 0 {
+			continue
+		}
+		l := t.c.W.Locks[d.SiafundElement.SiafundOutput.Address]
+		if l == nil || !l.SpendableV2(cs.Index.Height, chaingen.Median(cs)) {
+			continue
+		}
+		var al []alias
+		al = append(al, alias{"never-created-id", [32]byte{0xED, byte(j), byte(h)}})
+		if j < len(sces) && sces[j].Created {
+			al = append(al, alias{"id-of-siacoin-element-at-same-diff-index", sces[j].SiacoinElement.ID})
+		}
+		if fc := au.V2FileContractElementDiffs(); j < len(fc) && fc[j].Created {
+			al = append(al, alias{"id-of-v2-contract-at-same-diff-index", fc[j].V2FileContractElement.ID})
+		}
+		if j < len(attIDs) {
+			al = append(al, alias{"id-of-attestation-at-same-diff-index", attIDs[j]})
+		}
+		for _, a := range al {
+			fab := types.SiafundElement{ID: a.id, StateElement: types.StateElement{LeafIndex: types.UnassignedLeafIndex}, SiafundOutput: d.SiafundElement.SiafundOutput, ClaimStart: d.SiafundElement.ClaimStart}
+			txn := types.V2Transaction{SiafundInputs: []types.V2SiafundInput{{Parent: fab, ClaimAddress: types.VoidAddress, SatisfiedPolicy: types.SatisfiedPolicy{Policy: l.Policy}}},
+				SiafundOutputs: []types.SiafundOutput{{Value: fab.SiafundOutput.Value, Address: types.VoidAddress}}}
+			t.c.SignV2(cs, &txn, nil)
+			blk := chaingen.CloneBlock(orig)
+			blk.V2.Transactions = append(blk.V2.Transactions, txn)
+			err, _ := t.c.TryVariant(&blk)
+			if chaingen.IsSealFailure(err) {
+				continue
+			}
+			if h < t.c.Net.N.HardforkV2.EphemeralOutputHeight && a.name != "never-created-id" {
+				t.expect("ephemeral-siafund-parent", "fabricated/"+a.name+"/below-the-ephemeral-output-height", false, "ValidateBlock", err == nil)
+				t.b.Count("ephemeral_fabrications_tried_in_the_legacy_window", 1)
+				continue
+			}
+			t.expect("ephemeral-siafund-parent", "fabricated/"+a.name, false, "ValidateBlock", err == nil)
+			t.b.Count("ephemeral_siafund_fabrications_tried", 1)
+		}
+		break
+	}
 }
 
 // v2ForgedParentAfterInBlockRevision: an accepted block that revises a v2 contract is extended by a further
